@@ -59,22 +59,23 @@ theorem rule1 (o : Op1) (hd : dom1 o (f x)) (hf : HasDerivAt f f' x) :
     refine this.congr_deriv ?_
     rw [← Real.rpow_natCast]; norm_num
   case sec =>
-    have h1 : HasDerivAt (fun t => (1:ℝ)) 0 x := hasDerivAt_const x 1
-    have := h1.fun_div hf.cos hd
+    -- canonical form of the operation: (cos y)⁻¹ (covers 1 / cos y and cos y ** -1)
+    simp only [one_div, Real.rpow_neg_one, neg_neg] at *
+    have := (hf.cos).inv hd
     refine this.congr_deriv ?_
-    rw [Real.tan_eq_sin_div_cos]; field_simp; ring
+    rw [Real.tan_eq_sin_div_cos]; field_simp
   case csc =>
-    have h1 : HasDerivAt (fun t => (1:ℝ)) 0 x := hasDerivAt_const x 1
-    have := h1.fun_div hf.sin hd.1
+    simp only [one_div, Real.rpow_neg_one] at *
+    have := (hf.sin).inv hd.1
     refine this.congr_deriv ?_
     rw [Real.tan_eq_sin_div_cos]
     have := hd.1; have := hd.2
-    field_simp; ring
+    field_simp
   case cot =>
-    have h1 : HasDerivAt (fun t => (1:ℝ)) 0 x := hasDerivAt_const x 1
+    simp only [one_div, Real.rpow_neg_one] at *
     have ht : Real.tan (f x) ≠ 0 := by
       rw [Real.tan_eq_sin_div_cos]; exact div_ne_zero hd.1 hd.2
-    have := h1.fun_div ((Real.hasDerivAt_tan hd.2).comp x hf) ht
+    have := ((Real.hasDerivAt_tan hd.2).comp x hf).inv ht
     refine this.congr_deriv ?_
     simp only [Function.comp_apply]
     rw [← Real.rpow_natCast, Real.tan_eq_sin_div_cos]
